@@ -383,7 +383,7 @@ Int stringToInt(QStringView str, bool *ok)
         return 0;
     } else if constexpr (std::is_same_v<Int, uint8_t>) {
         auto result = str.toUShort(ok);
-        if (*ok && result <= std::numeric_limits<int8_t>::max()) {
+        if (*ok && result <= std::numeric_limits<uint8_t>::max()) {
             return Int(result);
         }
         *ok = false;
